@@ -3,7 +3,7 @@
   (pkg/server/etcd/kv.go: Txn, Range, isCreate / isDelete / isUpdate / isCompact) and response shaping
   (pkg/server/etcd/backendshim.go: Create / Delete / Update / Get / List / Count / GetPartitions / Watch)
   over the sequential backend model (KB.Backend).  The code is modelled AS IT IS (after the repair of the
-  recognisers, /repo commit 4c41c58): the recognisers look at exactly the fields the Go recognisers look
+  recognisers, /repo commits 4c41c58 and — the compaction probe — 2870609): the recognisers look at exactly the fields the Go recognisers look
   at; every field etcd semantics depend on (op keys, range_end, put flags, range options …) is present in
   the request types, and is ignored here exactly where the Go code still ignores it (Range options).
 
@@ -192,7 +192,22 @@ def isUpdate (t : TxnReq) : Option (Int × Bytes × Bytes × Int) :=
 /-- "compact_rev_key" -/
 def compactRevKey : Bytes := [99, 111, 109, 112, 97, 99, 116, 95, 114, 101, 118, 95, 107, 101, 121]
 
+/-- `isCompact` (after /repo 2870609: as strict as the other recognisers): one compare
+`Version(compact_rev_key) == n` without `range_end`, success = [ONE put on that key, without prev_kv /
+ignore_value / ignore_lease], failure = [ONE plain Get (`isPlainGet`) of that key] — the transaction
+kube-apiserver's compactor sends (k8s.io/apiserver/pkg/storage/etcd3/compact.go). Anything else is not the
+compaction probe and falls through to "unsupported transaction". -/
 def isCompact (t : TxnReq) : Bool :=
+  match t.compare, t.failure, t.success with
+  | [c], [.range g], [.put p] =>
+    c.target == .version && c.result == .equal && c.rangeEnd.isEmpty && c.key == compactRevKey &&
+    p.key == c.key && !p.prevKv && !p.ignoreValue && !p.ignoreLease && g.isPlainGet c.key
+  | _, _, _ => false
+
+/-- `isCompact` BEFORE /repo 2870609 (kept for the refutation `KB.C16.old_probe_recogniser_swallowed_put`): only
+the compare and the KIND of the two operations were looked at — `If(Version(compact_rev_key) = n).Then(Put <any
+key>).Else(Range <any key or range>)` was answered with the canned probe answer: neither rejected nor executed. -/
+def isCompactOld (t : TxnReq) : Bool :=
   match t.compare, t.failure, t.success with
   | [c], [.range _], [.put _] => c.target == .version && c.result == .equal && c.key == compactRevKey
   | _, _, _ => false
@@ -216,6 +231,19 @@ def classify (t : TxnReq) : Shape :=
       match isUpdate t with
       | some (rev, key, val, lease) => .update rev key val lease
       | none => if isCompact t then .compact else .unsupported
+
+/-- the `if` chain of `RPCServer.Txn` BEFORE /repo 2870609 (the lax probe recogniser `isCompactOld`); only for
+the refutation -/
+def classifyOld (t : TxnReq) : Shape :=
+  match isCreate t with
+  | some p => .create p
+  | none =>
+    match isDelete t with
+    | some (rev, key, guarded) => .delete rev key guarded
+    | none =>
+      match isUpdate t with
+      | some (rev, key, val, lease) => .update rev key val lease
+      | none => if isCompactOld t then .compact else .unsupported
 
 /-! ### response shaping of backendshim.go -/
 
@@ -331,6 +359,12 @@ def shimTxn (c : Cfg) (s : BState) (t : TxnReq) : Except EErr TxnResp × BState 
   match backendCall (classify t) with
   | some call => let (a, s') := runCall c s call; (shapeTxn (classify t) a, s')
   | none => (shapeTxn (classify t) (.error .other), s)
+
+/-- `RPCServer.Txn` BEFORE /repo 2870609 (`classifyOld`); only for the refutation -/
+def shimTxnOld (c : Cfg) (s : BState) (t : TxnReq) : Except EErr TxnResp × BState :=
+  match backendCall (classifyOld t) with
+  | some call => let (a, s') := runCall c s call; (shapeTxn (classifyOld t) a, s')
+  | none => (shapeTxn (classifyOld t) (.error .other), s)
 
 /-! the three backendshim methods on the model (used by the lemmas; `shimTxn_cases` in KB.Lemmas.Etcd
 shows `shimTxn` is their `if` chain) -/
